@@ -31,6 +31,7 @@ type Env struct {
 	depth    int
 	nq       int
 	acqMode  bool
+	which    *State // state selected by the innermost old()/acq()
 }
 
 type cevalError struct{ msg string }
@@ -75,6 +76,9 @@ func (v *Verifier) evalBoolIn(st *State, env *Env, cl *Clause) (res *Term) {
 
 func (env *Env) cur(st *State) *State {
 	if env.inOld {
+		if env.which != nil {
+			return env.which
+		}
 		if env.old == nil {
 			env.fail("old() used without a pre-state")
 		}
@@ -118,10 +122,19 @@ func (env *Env) eval(st *State, e CExpr) Value {
 		ne.inOld = true
 		if e.Label == "acq" {
 			if st.acq == nil {
-				env.fail("acq() used but no lock was acquired on this path")
+				// no acquisition on this path (early return): the current state stands in
+				ne.inOld = false
+				ne.which = nil
+				return ne.eval(st, e.X)
 			}
-			ne.old = st.acq
+			ne.which = st.acq
 			ne.acqMode = true
+		} else {
+			if env.old == nil {
+				env.fail("old() used without a pre-state")
+			}
+			ne.which = env.old
+			ne.acqMode = false
 		}
 		return ne.eval(st, e.X)
 	case CIte:
@@ -816,6 +829,14 @@ func (env *Env) call(st *State, e CCall) Value {
 			idx = 1
 		}
 		return boolVal(Ge(x.L[idx], env.old.next))
+	case "allocated":
+		// allocated(p): the block p points into exists in the current state
+		x := arg(0)
+		idx := 0
+		if _, ok := x.T.Underlying().(*types.Interface); ok {
+			idx = 1
+		}
+		return boolVal(Lt(x.L[idx], env.cur(st).next))
 	case "typeis":
 		x := arg(0)
 		ts, ok := e.Args[1].(CStr)
@@ -892,7 +913,7 @@ func (env *Env) call(st *State, e CCall) Value {
 		if len(e.Args) != len(p.Params) {
 			env.fail("%s expects %d arguments", p.Name, len(p.Params))
 		}
-		ne := &Env{v: v, vars: map[string]Value{}, pkgPath: p.PkgPath, old: env.old, inOld: env.inOld, depth: env.depth + 1, nq: env.nq, acqMode: env.acqMode}
+		ne := &Env{v: v, vars: map[string]Value{}, pkgPath: p.PkgPath, old: env.old, inOld: env.inOld, depth: env.depth + 1, nq: env.nq, acqMode: env.acqMode, which: env.which}
 		for i, pa := range p.Params {
 			val := arg(i)
 			if val.T == nilType || val.T == mathInt {
